@@ -78,8 +78,6 @@ theorem inv_begin {t : Tid} (h : Inv s) (hs : step s (.begin t) = some s') : Inv
     good⟩ := h
   simp only [step] at hs
   split at hs
-  · simp at hs
-  split at hs
   · rename_i hc
     cases hs
     obtain ⟨hl, _⟩ := hc
@@ -92,14 +90,422 @@ theorem inv_vote (h : Inv s) (hs : step s .vote = some s') : Inv s' := by
     good⟩ := h
   simp only [step] at hs
   split at hs
-  · simp at hs
-  split at hs
   · rename_i t hi
     cases hs
     have hc : s.commitLock = some .committer := infl.mp (by rw [hi]; rfl)
     constructor <;> first | assumption | simp_all
   · simp at hs
 
+theorem hasScan_of_hasCopy {p : PPhase} (h : hasCopy p = true) : hasScan p = true := by
+  cases p <;> simp_all [hasCopy, hasScan]
+
+theorem inv_finish (h : Inv s) (hs : step s .finish = some s') : Inv s' := by
+  obtain ⟨sub, ret, keep, infl, pend, plock, flag, scan, copy, hdr, eof, nocorrupt, pool, out, mid,
+    good⟩ := h
+  simp only [step] at hs
+  split at hs
+  · rename_i t hi
+    cases hs
+    have hc : s.commitLock = some .committer := infl.mp (by rw [hi]; rfl)
+    have hnp := not_holds_of_lock plock (by rw [hc]; simp)
+    constructor
+    · exact List.Sublist.append sub (List.Sublist.refl _)
+    · intro u hu; exact List.mem_append_left _ (ret u hu)
+    · intro u hu hlt
+      rcases List.mem_append.mp hu with hu | hu
+      · exact List.mem_append_left _ (keep u hu hlt)
+      · exact List.mem_append_right _ hu
+    · simp
+    · simp
+    · simp [hnp]
+    · exact flag
+    · intro hp
+      obtain ⟨h1, h2⟩ := scan hp
+      refine ⟨by simp; omega, ?_⟩
+      show ∀ u ∈ (s.file ++ [t]).take s.k, u ≤ s.packT
+      rw [take_append_le h1]; exact h2
+    · intro hp
+      obtain ⟨h1, h2, h3⟩ := copy hp
+      have hk := (scan (hasScan_of_hasCopy hp)).1
+      refine ⟨?_, h2, by simp; omega⟩
+      show s.kept.Sublist ((s.file ++ [t]).take s.k)
+      rw [take_append_le hk]; exact h1
+    · intro hp; have := hdr hp; simp; omega
+    · intro hp
+      rcases hp with hp | hp <;> (have hp' : s.phase = _ := hp; simp [hp', PPhase.holdsLock] at hnp)
+    · exact nocorrupt
+    · exact pool
+    · exact out
+    · exact mid
+    · exact good
+  · simp at hs
+
+theorem inv_abort (h : Inv s) (hs : step s .abort = some s') : Inv s' := by
+  obtain ⟨sub, ret, keep, infl, pend, plock, flag, scan, copy, hdr, eof, nocorrupt, pool, out, mid,
+    good⟩ := h
+  simp only [step] at hs
+  split at hs
+  · rename_i x hi
+    cases hs
+    have hc : s.commitLock = some .committer := infl.mp (by rw [hi]; rfl)
+    have hnp := not_holds_of_lock plock (by rw [hc]; simp)
+    constructor <;> first | assumption | simp_all
+  · simp at hs
+
+theorem inv_ret {t : Tid} (h : Inv s) (hs : step s (.ret t) = some s') : Inv s' := by
+  obtain ⟨sub, ret, keep, infl, pend, plock, flag, scan, copy, hdr, eof, nocorrupt, pool, out, mid,
+    good⟩ := h
+  simp only [step] at hs
+  split at hs
+  · rename_i hc
+    cases hs
+    constructor <;> first | assumption | skip
+    intro u hu
+    rcases List.mem_append.mp hu with hu | hu
+    · exact ret u hu
+    · simp at hu; subst hu; exact hc.1
+  · simp at hs
+
+theorem inv_packStart {T : Tid} (h : Inv s) (hs : step s (.packStart T) = some s') : Inv s' := by
+  obtain ⟨sub, ret, keep, infl, pend, plock, flag, scan, copy, hdr, eof, nocorrupt, pool, out, mid,
+    good⟩ := h
+  simp only [step] at hs
+  split at hs
+  · rename_i hc
+    cases hs
+    obtain ⟨hf, hr⟩ := hc
+    have hph : s.phase = .idle ∨ s.phase = .done := by
+      cases hp : s.phase <;> simp_all [PPhase.running]
+    have hnl : s.commitLock ≠ some .packer := by
+      intro hl
+      have := plock.mpr hl
+      rcases hph with hp | hp <;> simp [hp, PPhase.holdsLock] at this
+    constructor <;> first | assumption | simp_all [PPhase.holdsLock, PPhase.running, hasScan, hasCopy]
+  · simp at hs
+
+theorem inv_packRefused (h : Inv s) (hs : step s .packRefused = some s') : Inv s' := by
+  simp only [step] at hs
+  split at hs
+  · cases hs; exact h
+  · simp at hs
+
+theorem inv_scan {k : Nat} (h : Inv s) (hs : step s (.scan k) = some s') : Inv s' := by
+  obtain ⟨sub, ret, keep, infl, pend, plock, flag, scan, copy, hdr, eof, nocorrupt, pool, out, mid,
+    good⟩ := h
+  simp only [step] at hs
+  split at hs
+  · rename_i hc
+    cases hs
+    obtain ⟨hp, hk, hT⟩ := hc
+    constructor <;> first | assumption | simp_all [PPhase.holdsLock, PPhase.running, hasScan, hasCopy]
+  · simp at hs
+
+theorem inv_bulkCopy {kept : List Tid} (h : Inv s) (hs : step s (.bulkCopy kept) = some s') :
+    Inv s' := by
+  obtain ⟨sub, ret, keep, infl, pend, plock, flag, scan, copy, hdr, eof, nocorrupt, pool, out, mid,
+    good⟩ := h
+  simp only [step] at hs
+  split at hs
+  · rename_i hc
+    cases hs
+    obtain ⟨hp, hk⟩ := hc
+    have hsc := scan (by rw [hp]; rfl)
+    constructor <;> first | assumption | simp_all [PPhase.holdsLock, PPhase.running, hasScan, hasCopy]
+  · simp at hs
+
+theorem inv_packNoop (h : Inv s) (hs : step s .packNoop = some s') : Inv s' := by
+  obtain ⟨sub, ret, keep, infl, pend, plock, flag, scan, copy, hdr, eof, nocorrupt, pool, out, mid,
+    good⟩ := h
+  simp only [step] at hs
+  split at hs
+  · rename_i hc
+    cases hs
+    rcases hc with hp | hp <;>
+    (constructor <;> first | assumption | simp_all [PPhase.holdsLock, PPhase.running, hasScan, hasCopy])
+  · simp at hs
+
+theorem inv_acquireCommit (h : Inv s) (hs : step s .acquireCommit = some s') : Inv s' := by
+  obtain ⟨sub, ret, keep, infl, pend, plock, flag, scan, copy, hdr, eof, nocorrupt, pool, out, mid,
+    good⟩ := h
+  simp only [step] at hs
+  split at hs
+  · rename_i hc
+    cases hs
+    obtain ⟨hp, hl⟩ := hc
+    have hi : s.inflight.isSome = false := by
+      cases hx : s.inflight.isSome
+      · rfl
+      · have := infl.mp hx; rw [hl] at this; cases this
+    have hpe : s.pending.isSome = false := by
+      cases hx : s.pending.isSome
+      · rfl
+      · have := pend hx; rw [hl] at this; cases this
+    have hsc := scan (by rw [hp]; rfl)
+    have hcp := copy (by rw [hp]; rfl)
+    constructor <;> first | assumption | simp_all [PPhase.holdsLock, PPhase.running, hasScan, hasCopy]
+  · simp at hs
+
+theorem inv_reacquire (h : Inv s) (hs : step s .reacquire = some s') : Inv s' := by
+  obtain ⟨sub, ret, keep, infl, pend, plock, flag, scan, copy, hdr, eof, nocorrupt, pool, out, mid,
+    good⟩ := h
+  simp only [step] at hs
+  split at hs
+  · rename_i hc
+    cases hs
+    obtain ⟨hp, hl⟩ := hc
+    have hi : s.inflight.isSome = false := by
+      cases hx : s.inflight.isSome
+      · rfl
+      · have := infl.mp hx; rw [hl] at this; cases this
+    have hpe : s.pending.isSome = false := by
+      cases hx : s.pending.isSome
+      · rfl
+      · have := pend hx; rw [hl] at this; cases this
+    have hsc := scan (by rw [hp]; rfl)
+    have hcp := copy (by rw [hp]; rfl)
+    constructor <;> first | assumption | simp_all [PPhase.holdsLock, PPhase.running, hasScan, hasCopy]
+  · simp at hs
+
+/-- while the packer owns the commit lock, nothing is in flight and no unfinished bytes exist -/
+theorem quiescent_of_packer_lock (h : Inv s) (hl : s.commitLock = some .packer) :
+    s.inflight = none ∧ s.pending = none := by
+  constructor
+  · cases hx : s.inflight with
+    | none => rfl
+    | some x => have := h.infl.mp (by rw [hx]; rfl); rw [hl] at this; cases this
+  · cases hx : s.pending with
+    | none => rfl
+    | some x => have := h.pend (by rw [hx]; rfl); rw [hl] at this; cases this
+
+theorem inv_readHdr (h : Inv s) (hs : step s .readHdr = some s') : Inv s' := by
+  have hq := fun hl => quiescent_of_packer_lock h hl
+  obtain ⟨sub, ret, keep, infl, pend, plock, flag, scan, copy, hdr, eof, nocorrupt, pool, out, mid,
+    good⟩ := h
+  simp only [step] at hs
+  split at hs
+  · rename_i hp
+    have hl : s.commitLock = some .packer := plock.mp (by rw [hp]; rfl)
+    obtain ⟨hi, hpe⟩ := hq hl
+    have hsc := scan (by rw [hp]; rfl)
+    have hcp := copy (by rw [hp]; rfl)
+    split at hs
+    · cases hs
+      constructor <;> first | assumption | simp_all [PPhase.holdsLock, PPhase.running, hasScan, hasCopy]
+    · rw [hpe] at hs
+      cases hs
+      constructor <;> first | assumption | simp_all [PPhase.holdsLock, PPhase.running, hasScan, hasCopy]
+      omega
+  · simp at hs
+
+theorem inv_releaseForBody (h : Inv s) (hs : step s .releaseForBody = some s') : Inv s' := by
+  have hq := fun hl => quiescent_of_packer_lock h hl
+  obtain ⟨sub, ret, keep, infl, pend, plock, flag, scan, copy, hdr, eof, nocorrupt, pool, out, mid,
+    good⟩ := h
+  simp only [step] at hs
+  split at hs
+  · rename_i hp
+    cases hs
+    have hl : s.commitLock = some .packer := plock.mp (by rw [hp]; rfl)
+    obtain ⟨hi, hpe⟩ := hq hl
+    have hsc := scan (by rw [hp]; rfl)
+    have hcp := copy (by rw [hp]; rfl)
+    have hh := hdr (Or.inl hp)
+    constructor <;> first | assumption | simp_all [PPhase.holdsLock, PPhase.running, hasScan, hasCopy]
+  · simp at hs
+
+theorem inv_copyBody (h : Inv s) (hs : step s .copyBody = some s') : Inv s' := by
+  obtain ⟨sub, ret, keep, infl, pend, plock, flag, scan, copy, hdr, eof, nocorrupt, pool, out, mid,
+    good⟩ := h
+  simp only [step] at hs
+  split at hs
+  · rename_i hp
+    cases hs
+    have hsc := scan (by rw [hp]; rfl)
+    have hcp := copy (by rw [hp]; rfl)
+    have hh := hdr (Or.inr hp)
+    constructor <;> first | assumption | simp_all [PPhase.holdsLock, PPhase.running, hasScan, hasCopy]
+    omega
+  · simp at hs
+
+theorem inv_swapBegin (h : Inv s) (hs : step s .swapBegin = some s') : Inv s' := by
+  obtain ⟨sub, ret, keep, infl, pend, plock, flag, scan, copy, hdr, eof, nocorrupt, pool, out, mid,
+    good⟩ := h
+  simp only [step] at hs
+  split at hs
+  · rename_i hc
+    cases hs
+    obtain ⟨hp, ho⟩ := hc
+    have hsc := scan (by rw [hp]; rfl)
+    have hcp := copy (by rw [hp]; rfl)
+    have he := eof (Or.inl hp)
+    constructor <;> first | assumption | simp_all [PPhase.holdsLock, PPhase.running, hasScan, hasCopy]
+  · simp at hs
+
+theorem inv_swapEnd (h : Inv s) (hs : step s .swapEnd = some s') : Inv s' := by
+  obtain ⟨sub, ret, keep, infl, pend, plock, flag, scan, copy, hdr, eof, nocorrupt, pool, out, mid,
+    good⟩ := h
+  simp only [step] at hs
+  split at hs
+  · rename_i hp
+    cases hs
+    obtain ⟨hk, hT⟩ := scan (by rw [hp]; rfl)
+    obtain ⟨hkept, hkc, hcl⟩ := copy (by rw [hp]; rfl)
+    have he := eof (Or.inr hp)
+    obtain ⟨hpool, hout⟩ := mid hp
+    have hl : s.commitLock = some .packer := plock.mp (by rw [hp]; rfl)
+    have htake : s.file.take s.copied = s.file := List.take_of_length_le (by omega)
+    have hsub : (s.kept ++ (s.file.take s.copied).drop s.k).Sublist s.file := by
+      rw [htake]
+      have := List.Sublist.append hkept (List.Sublist.refl (s.file.drop s.k))
+      rwa [List.take_append_drop] at this
+    constructor
+    · exact hsub.trans sub
+    · exact ret
+    · intro t ht hlt
+      have hlt' : s.packedUpTo < t ∧ s.packT < t := Nat.max_lt.mp hlt
+      have hf := keep t ht hlt'.1
+      show t ∈ s.kept ++ (s.file.take s.copied).drop s.k
+      rw [htake]
+      rcases mem_take_or_drop s.file s.k t hf with h1 | h1
+      · exact absurd (Nat.lt_of_lt_of_le hlt'.2 (hT t h1)) (Nat.lt_irrefl _)
+      · exact List.mem_append_right _ h1
+    · exact infl
+    · exact pend
+    · simp [PPhase.holdsLock, hl]
+    · exact fun _ => flag (by rw [hp]; rfl)
+    · intro hx; simp [hasScan] at hx
+    · intro hx; simp [hasCopy] at hx
+    · intro hx; simp at hx
+    · intro hx; simp at hx
+    · exact nocorrupt
+    · rw [hpool]; simp
+    · rw [hout]; simp
+    · intro hx; simp at hx
+    · exact good
+  · simp at hs
+
+theorem inv_releaseCommit (h : Inv s) (hs : step s .releaseCommit = some s') : Inv s' := by
+  have hq := fun hl => quiescent_of_packer_lock h hl
+  obtain ⟨sub, ret, keep, infl, pend, plock, flag, scan, copy, hdr, eof, nocorrupt, pool, out, mid,
+    good⟩ := h
+  simp only [step] at hs
+  split at hs
+  · rename_i hp
+    cases hs
+    have hl : s.commitLock = some .packer := plock.mp (by rw [hp]; rfl)
+    obtain ⟨hi, hpe⟩ := hq hl
+    constructor <;> first | assumption | simp_all [PPhase.holdsLock, PPhase.running, hasScan, hasCopy]
+  · simp at hs
+
+theorem inv_clearFlag (h : Inv s) (hs : step s .clearFlag = some s') : Inv s' := by
+  obtain ⟨sub, ret, keep, infl, pend, plock, flag, scan, copy, hdr, eof, nocorrupt, pool, out, mid,
+    good⟩ := h
+  simp only [step] at hs
+  split at hs
+  · rename_i hp
+    cases hs
+    constructor <;> first | assumption | simp_all [PPhase.holdsLock, PPhase.running, hasScan, hasCopy]
+  · simp at hs
+
+theorem inv_packFail (h : Inv s) (hs : step s .packFail = some s') : Inv s' := by
+  have hq := fun hl => quiescent_of_packer_lock h hl
+  obtain ⟨sub, ret, keep, infl, pend, plock, flag, scan, copy, hdr, eof, nocorrupt, pool, out, mid,
+    good⟩ := h
+  simp only [step] at hs
+  split at hs
+  · rename_i hp
+    cases hs
+    by_cases hl : s.commitLock = some .packer
+    · obtain ⟨hi, hpe⟩ := hq hl
+      constructor <;> first | assumption | simp_all [PPhase.holdsLock, PPhase.running, hasScan, hasCopy]
+    · constructor <;> first | assumption | simp_all [PPhase.holdsLock, PPhase.running, hasScan, hasCopy]
+  · simp at hs
+
+theorem inv_readerGet (h : Inv s) (hs : step s .readerGet = some s') : Inv s' := by
+  obtain ⟨sub, ret, keep, infl, pend, plock, flag, scan, copy, hdr, eof, nocorrupt, pool, out, mid,
+    good⟩ := h
+  simp only [step] at hs
+  split at hs
+  · simp at hs
+  rename_i hp
+  split at hs
+  · rename_i g rest hpl
+    cases hs
+    have hg : g = s.gen := pool g (by rw [hpl]; simp)
+    have hrest : ∀ x ∈ rest, x = s.gen := fun x hx => pool x (by rw [hpl]; simp [hx])
+    constructor <;> first | assumption | simp_all
+    exact out
+  · rename_i hpl
+    cases hs
+    constructor <;> first | assumption | simp_all
+    exact out
+
+theorem inv_readerRead {g : Nat} (h : Inv s) (hs : step s (.readerRead g) = some s') : Inv s' := by
+  obtain ⟨sub, ret, keep, infl, pend, plock, flag, scan, copy, hdr, eof, nocorrupt, pool, out, mid,
+    good⟩ := h
+  simp only [step] at hs
+  split at hs
+  · rename_i hg
+    cases hs
+    have := out g hg
+    constructor <;> first | assumption | simp_all
+  · simp at hs
+
+theorem inv_readerPut {g : Nat} (h : Inv s) (hs : step s (.readerPut g) = some s') : Inv s' := by
+  obtain ⟨sub, ret, keep, infl, pend, plock, flag, scan, copy, hdr, eof, nocorrupt, pool, out, mid,
+    good⟩ := h
+  simp only [step] at hs
+  split at hs
+  · rename_i hg
+    cases hs
+    have hgg := out g hg
+    have hne : s.phase ≠ .midSwap := by
+      intro hp; have := (mid hp).2; rw [this] at hg; simp at hg
+    have hout' : ∀ x ∈ s.out.erase g, x = s.gen := fun x hx => out x (List.mem_of_mem_erase hx)
+    constructor <;> first | assumption | simp_all
+  · simp at hs
+
+/-- every action preserves the invariant -/
+theorem inv_step {a : Act} (h : Inv s) (hs : step s a = some s') : Inv s' := by
+  cases a with
+  | begin t => exact inv_begin h hs
+  | vote => exact inv_vote h hs
+  | finish => exact inv_finish h hs
+  | abort => exact inv_abort h hs
+  | ret t => exact inv_ret h hs
+  | packStart T => exact inv_packStart h hs
+  | packRefused => exact inv_packRefused h hs
+  | scan k => exact inv_scan h hs
+  | bulkCopy kept => exact inv_bulkCopy h hs
+  | packNoop => exact inv_packNoop h hs
+  | acquireCommit => exact inv_acquireCommit h hs
+  | readHdr => exact inv_readHdr h hs
+  | releaseForBody => exact inv_releaseForBody h hs
+  | copyBody => exact inv_copyBody h hs
+  | reacquire => exact inv_reacquire h hs
+  | swapBegin => exact inv_swapBegin h hs
+  | swapEnd => exact inv_swapEnd h hs
+  | releaseCommit => exact inv_releaseCommit h hs
+  | clearFlag => exact inv_clearFlag h hs
+  | packFail => exact inv_packFail h hs
+  | readerGet => exact inv_readerGet h hs
+  | readerRead g => exact inv_readerRead h hs
+  | readerPut g => exact inv_readerPut h hs
+
+theorem inv_run {acts : List Act} (h : Inv s) (hr : run s acts = some s') : Inv s' := by
+  induction acts generalizing s with
+  | nil => simp [run] at hr; subst hr; exact h
+  | cons a as ih =>
+    simp only [run] at hr
+    split at hr
+    · rename_i s1 hs1
+      exact ih (inv_step h hs1) hr
+    · simp at hr
+
 end
+
+theorem reachable_inv {s : State} (h : Reachable s) : Inv s := by
+  obtain ⟨old, acts, hr⟩ := h
+  exact inv_run (inv_init old) hr
 
 end Proofs.PackProto
